@@ -50,6 +50,10 @@ CHECKS = {
    text="For each workload history every truncation length of the newest append file and of its value file, and the directory image after every file-system call, is recovered by a fresh node: start must succeed, the recovered state must be that of a clean record prefix not longer than the complete records present, and a second restart must recover what was persisted after the first.",
    note="Trusted: instrumenter+runtime, vos in-memory file system and its FS-point numbering, the implementation's loader on record-boundary cuts as reference for prefix states.",
    technique="exhaustive crash-point / torn-write enumeration on the implementation with differential recovery oracle"),
+ "C16": dict(level="fault_enumeration", design="4/C16",
+   text="For workload histories spread over several append files plus a rewrite file, the directory image after every file-system mutation of every compaction is recovered and compared with the recovery of the pre-compaction image; completed compactions are compared with the same history logged without compaction.",
+   note="Trusted: instrumenter+runtime, vos FS-point numbering, the loader as differential reference. Concurrent appends during compaction not explored.",
+   technique="exhaustive crash-point enumeration over the compaction's file-system mutations with differential recovery oracle"),
 }
 NA_DEFAULT = "check not built yet in this round (planned: see DESIGN.md section 4)"
 
